@@ -620,6 +620,8 @@ def run(repo, rep):
         for fn in list(cls_.methods.values()) + list(cls_.setters.values()):
             if not any(isinstance(n, (ast.Assign, ast.AugAssign, ast.Delete)) and 'dimse_decoder' in norm(n) for n in ast.walk(fn.node)):
                 continue
+            if repo.is_helper(fn):
+                continue          # judged where the helper is inlined, with the conditions of the calling path
             rep.analysed(fn)
             c7 = SymClient(repo, fn, event_of=lambda *a: None, hierarchy=hier,
                            store_event=lambda t: t.endswith('.dimse_decoder'))
@@ -641,7 +643,15 @@ def run(repo, rep):
                     done = any(cn.endswith('.receiving') and cn.startswith('-') or cn.endswith('.receiving is False') and cn.startswith('+')
                                or cn.startswith('+not ') and cn.endswith('.receiving') for cn in e.conds)
                     failed = any(cn.startswith('exc:') for cn in e.conds)
-                    if not (done or failed):
+                    # ... or the association is over: the machine is entering a state in which nothing of it can follow
+                    from ..fsm_model import NO_PENDING_INPUT_STATES, entered_states
+                    ent = entered_states(e.conds, repo)
+                    over = ent is not None and ent <= set(NO_PENDING_INPUT_STATES)
+                    if ent is not None and not over:
+                        p7.append('%s discards the decoder at line %d when the machine enters %s: in %s a message may still be '
+                                  'under reassembly' % (fn.qualname, e.line, sorted(ent), sorted(ent - set(NO_PENDING_INPUT_STATES))))
+                        continue
+                    if not (done or failed or over):
                         p7.append('%s discards the decoder at line %d on a path where the message is neither complete nor '
                                   'failed [%s]: a message whose fragments span this point can never be reassembled'
                                   % (fn.qualname, e.line, ' '.join(e.conds) or 'unconditionally'))
